@@ -101,6 +101,9 @@ def make_cases(ctx, alg, blobs):
 
         def __init__(self, name, sig, subject, subj_desc, signer_desc, pub_, vkb_, alt):
             Case.__init__(self, name, sig, subject, subj_desc, comp_by_id.get(sig.signer, signer_desc), pub_, vkb_, alt)
+            if getattr(sig, 'embedded', False):
+                raw = bytes(sig)                         # an embedded signature is exported as a subpacket: length, type 32, body
+                self.pkt = build.pkt(2, raw[(2 if raw[0] < 192 else 3 if raw[0] < 255 else 6):])
 
     def now():
         t[0] += 1
@@ -175,6 +178,21 @@ def make_cases(ctx, alg, blobs):
     kdesc = sigs.subj_keys(blobs, kblob, kfp, subfp)
     other_sub = sigs.subj_keys(blobs, kblob, kfp, str(subs[1].fingerprint))
     cases.append(_C('subkey-binding', bind, psubs[0], kdesc, primary, pub, vkb, [('other-subkey', psubs[1], other_sub)]))
+    back = next((s_ for s_ in subs[0].__sig__ if s_.type == SignatureType.PrimaryKey_Binding), None)
+    if back is not None:
+        # the embedded back signature (0x19) is issued by the subkey over (primary, subkey); as subject PGPy takes the primary key.
+        # alternative subject: the same subkey transplanted under another primary key (k3 + k's subkey packet and binding)
+        kp_ = build.read_packets(kblob)
+        si_ = next(i for i, p_ in enumerate(kp_) if p_[0] == 14 and sigs.fpr_of_body(p_[1]).hex().upper() == subfp)
+        k3p_ = build.read_packets(k3blob)
+        forged_blob = b''.join(p_[2] for p_ in k3p_) + kp_[si_][2] + kp_[si_ + 1][2]
+        alts_ = []
+        try:
+            forged = pgpy.PGPKey.from_blob(forged_blob)[0]
+            alts_.append(('subkey transplanted under another primary', forged, sigs.subj_keys(blobs, forged_blob, str(k3.fingerprint), subfp)))
+        except Exception as ex:
+            ctx.note('could not build transplanted key: %s' % repr(ex)[:80])
+        cases.append(_C('primary-binding', back, pub, kdesc, signsub, pub, vkb, alts_))
     s = k.revoke(subs[0], created=now())
     cases.append(_C('subkey-revocation', s, psubs[0], kdesc, primary, pub, vkb, [('other-subkey', psubs[1], other_sub)]))
     return cases, {'k': k, 'k2': k2, 'pub': pub, 'pub2': pub2, 'kblob': kblob, 'k2blob': k2blob, 'vkb': vkb, 'vkb2': blobs.add(k2blob),
@@ -252,6 +270,14 @@ def mutate_case(ctx, ev, blobs, case, env, scen):
             bits = sorted(set([16, 17, n * 8 - 1, n * 8 - 2] + rng.sample(range(16, n * 8), min(24 if ctx.quick else 120, n * 8 - 16))))
             for b in bits:
                 attempt(ev, blobs, case, 'sigval bit %d' % b, flip(case.pkt, off + b // 8, b % 8), case.subject, case.subj_desc, field=field, semantic=True)
+            # the first integer with a non-zero octet prepended (value + k * 256^len): a different integer
+            body = L.body
+            o2 = 10 + L.hl + L.ul
+            bits0 = (body[o2] << 8) | body[o2 + 1]
+            nb0 = (bits0 + 7) // 8
+            for lead in (1, 0x80):
+                nbody = body[:o2] + struct.pack('>H', nb0 * 8 + lead.bit_length()) + bytes([lead]) + body[o2 + 2:]
+                attempt(ev, blobs, case, 'sigval integer + k*256^len', rewrap(case.pkt, nbody), case.subject, case.subj_desc, field=field, semantic=True)
             # zeroed value, values of another signature by the same key (splice)
             other = env.get('other_sigval', {}).get(case.pkt[L.f['pk'][0]])
             if other is not None and other != case.pkt[off:]:
@@ -446,7 +472,7 @@ def run(ctx):
             env['other_sigval'].setdefault(c.pkt[L.f['pk'][0]], c.pkt[L.f['sigval'][0]:])
         for c in cases:
             fields = set(scen)
-            if ctx.quick and alg != 'ed25519' and not (c.name in ('doc-SHA256', 'selfcert', 'subkey-binding', 'cert-10', 'attestation', 'doc-by-subkey', 'key-revocation')):
+            if ctx.quick and alg != 'ed25519' and not (c.name in ('doc-SHA256', 'selfcert', 'subkey-binding', 'primary-binding', 'cert-10', 'attestation', 'doc-by-subkey', 'key-revocation')):
                 fields = {'type', 'h', 'subj1', 'subj2', 'vkey', 'sigval', 'hashedLen'}
             if mutate_case(ctx, ev, blobs, c, env, fields):
                 ncases += 1
